@@ -11,6 +11,7 @@ T: corpus files (real CPython library/test sources): the implementation's tree a
 import json
 import os
 import glob
+import unicodedata
 import pytree
 from checks import pygen, syntaxrun as sr, lexcommon as lx
 
@@ -90,7 +91,11 @@ def corpus_differential(ctx):
         got = pytree.strip_ranges(pytree.from_rust(r["ok"]))
         d = pytree.tree_diff(pytree.strip_ranges(ref), got)
         if d:
-            ctx.mismatch("tree@" + sr.tree_sig(d), {"src_prefix": p[:100], "expected": str(d[1])[:200], "observed": str(d[2])[:200]}, base)
+            sig = "tree@" + sr.tree_sig(d)
+            # known finding F-C01-3: the reference stores identifiers NFKC-normalised (PEP 3131), this parser keeps the spelling
+            if isinstance(d[1], str) and isinstance(d[2], str) and d[1] != d[2] and unicodedata.normalize("NFKC", d[2]) == d[1]:
+                sig = "tree@identifier#nfkc"
+            ctx.mismatch(sig, {"src_prefix": p[:100], "expected": str(d[1])[:200], "observed": str(d[2])[:200]}, base)
 
 
 def run(ctx):
@@ -135,5 +140,8 @@ def replay(ctx, rec):
         elif ref:
             d = pytree.tree_diff(pytree.strip_ranges(ref), pytree.strip_ranges(pytree.from_rust(resp["ok"])))
             if d:
-                ctx.mismatch("tree@" + sr.tree_sig(d), {"expected": str(d[1])[:200], "observed": str(d[2])[:200]}, c)
+                sig = "tree@" + sr.tree_sig(d)
+                if isinstance(d[1], str) and isinstance(d[2], str) and d[1] != d[2] and unicodedata.normalize("NFKC", d[2]) == d[1]:
+                    sig = "tree@identifier#nfkc"
+                ctx.mismatch(sig, {"expected": str(d[1])[:200], "observed": str(d[2])[:200]}, c)
     ctx.sample({"fam": c["fam"]})
